@@ -116,6 +116,29 @@ def gen_cases(rng, tier, boost=1):
         if x == x and x not in (float("inf"),):
             add("repr17", "%.17g" % x)
             add("repr-short", repr(x))
+    # values within half an ulp below a power of two (the rounding carries out of the 53-bit
+    # significand: the binary exponent must be bumped) and just above it, in every spelling:
+    # fraction digits, negative exponent, long tails of nines
+    for k in list(range(-40, 70)) + [rng.randrange(70, 1000) for _ in range(20 * scale)] + [rng.randrange(-1000, -40) for _ in range(20 * scale)]:
+        top = (1 << 53) - 1                      # the double just below 2^k is top * 2^(k-53)
+        for (m2, sh) in ((2 * top + 1, k - 54), (4 * top + 3, k - 55), (2 * top + 2, k - 54), (top, k - 53)):
+            sdec = exact_decimal(m2, sh)
+            if len(sdec) > 400:
+                continue
+            if "e" in sdec:
+                mm, ee = sdec.split("e")
+                ee = int(ee)
+            else:
+                mm, ee = sdec, 0
+            # move the point inside the digits so that the numeral has a fraction part
+            if len(mm) + ee >= 1 and ee < 0:
+                pos = len(mm) + ee
+                add("below-power-of-two", mm[:pos] + "." + mm[pos:])
+            add("below-power-of-two", mm + ("e%d" % ee if ee else ""))
+        if 0 <= k <= 62:
+            add("below-power-of-two", str((1 << k) - 1) + "." + "9" * rng.choice([15, 16, 17, 18, 19, 20, 25, 40]))
+            add("below-power-of-two", str((1 << k)) + "." + "0" * rng.choice([15, 17, 19, 25]) + "1")
+            add("below-power-of-two", str(((1 << k) * 10 ** 17 - 1)) + "e-17")
     # overflow band and beyond
     for _ in range(300 * scale):
         m = "%d.%s" % (rng.randrange(1, 10), dl.rand_digits(rng, rng.randrange(1, 18), False))
